@@ -130,3 +130,26 @@ func TestRegressRightWitnessLoop(t *testing.T) {
 	// an empty calculated root must not verify against an empty root either
 	regress(t, &Case{Target: "rmt.VerifyRightWitness", B: []hexb{{}}, LL: [][]hexb{{h, h}, {h}}, U: []uint64{0}}, "false")
 }
+
+// Seeded defect (round 7b): forkchoice.receivedLastBlockWithinForgingSlot called IsZero() through the nil *time.Time a node
+// holds until it has received a block in order through Executer.process. A competing sibling of the tip (same height,
+// previous block and maxHeightPrevoted, another generator, later slot) then crashes the consensus goroutine of a node that
+// was just started or restarted, or that has only synced. The cases: node restarted after it had received a block; node as
+// opened on an existing database; history applied through the sync path only (incl. the very first block after genesis).
+// The unchanged engine takes a tip without reception time as received inside its slot and discards the sibling.
+func TestRegressTieBreakSiblingAfterRestart(t *testing.T) {
+	before := signedNoRecvSiblings.Load()
+	applicable := []string{"discarded", "accepted", "tiebreak-reverted", "tiebreak-lost-tip"}
+	for _, c := range []*Case{
+		signedCase(signedCfg{nVal: 4, hist: 9}, "pre=recv:1;pre=restart;sib=1", ""),
+		signedCase(signedCfg{nVal: 4, hist: 9}, "pre=asis;sib=1", ""),
+		signedCase(signedCfg{nVal: 4, hist: 9}, "pre=sync:1;sib=1", ""),
+		signedCase(signedCfg{nVal: 4, hist: 0}, "pre=sync:1;sib=1", ""),
+		signedCase(signedCfg{nVal: 3, standby: 1, hist: 10}, "pre=restart;sib=1", ""),
+	} {
+		regress(t, c, applicable...)
+	}
+	if got := signedNoRecvSiblings.Load() - before; got != 5 {
+		t.Fatalf("harness: %d of the 5 siblings reached fork choice on a node without a reception time on record", got)
+	}
+}
